@@ -150,6 +150,9 @@ func (cfg config[Obj]) validate() error {
 	if cfg.RetryBackoffMinDuration <= 0 {
 		return fmt.Errorf("%T.RetryBackoffMinDuration must be >0", cfg)
 	}
+	if cfg.RetryBackoffMaxDuration < cfg.RetryBackoffMinDuration {
+		return fmt.Errorf("%T.RetryBackoffMaxDuration must be >= RetryBackoffMinDuration", cfg)
+	}
 	if cfg.Operations == nil {
 		return fmt.Errorf("%T.Operations must be defined", cfg)
 	}
